@@ -32,6 +32,10 @@ theorem cselect_nil (r : L4) (c : Nat) (u v : Option L4) (h : u = none ∨ v = n
   · exact cselect_nil_left r c v
   · exact cselect_nil_right r c u
 
+/-- `scalar.CMove`, regenerated from its Go body on every run, is the `Selectznz` call the model of `CSelect` makes (pure in
+its operands: the generated definition reads `u` and `v` before `out` is bound, whatever `out` aliases) -/
+theorem cmove_wrapper_tied (c : Nat) (u v : L4) : FiatScalar.cMove c u v = FiatScalar.selectznz c u v := rfl
+
 example : sOk Hand.Scalar.minusOne ∧ sOk FiatScalar.setOne := ⟨⟨by decide, by decide⟩, ⟨by decide, by decide⟩⟩
 
 end C13
